@@ -14,7 +14,7 @@ from pyvc.interp import IGen, PyExc, PathEnd, Unsupported, run_sync
 # symbolic regions
 
 
-def mk_region(ctx, name, state):
+def mk_region(ctx, name, state, acc=True):
     """a SizeConstraint in one of the states 'armed' | 'unarmed' | 'obsolete' with symbolic counters"""
     from tpmstream.common.constraints import SizeConstraint
     from tpmstream.common.path import Path, PathNode
@@ -29,7 +29,8 @@ def mk_region(ctx, name, state):
         m = None
     else:
         m = ctx.fresh_int(f"{name}_max", 0)
-        ctx.assume(a <= m)  # accounting invariant Acc
+        if acc:
+            ctx.assume(a <= m)  # accounting invariant Acc (holds for regions armed when they start counting)
         r.size_max = S.SInt(m)
         r.constraint_path = Path((PathNode(""), PathNode(name)))
     r._ghost = {"name": name, "a0": a, "max": m, "state": state}
